@@ -66,6 +66,7 @@ def tiny_domain(tier):
     return out
 
 
+@common.safe
 def export_all(item):
     name, size, dname, kw = item
     code = codes.build(name, size, dname, kw)
@@ -123,6 +124,7 @@ def large_domain(tier):
     return list(dict.fromkeys((a, b, c, tuple(sorted(d.items()))) for a, b, c, d in out))
 
 
+@common.safe
 def export_some(item):
     name, size, dname, kwt = item
     kw = dict(kwt)
@@ -181,6 +183,7 @@ def run(tier):
     tiny = tiny_domain(tier)
     recs = common.pmap(export_all, tiny)
     recs += common.pmap(export_some, large_domain(tier))
+    recs = common.split_raised('C04', v, recs)
     for j, r in enumerate(recs):
         r['id'] = j
     t_export = time.time() - t0
